@@ -144,6 +144,16 @@ pub fn build_image(case: &Case) -> Result<Image, String> {
         ops.push(Op::Batch(vec![(1000, Some(v(40_000, true))), (9000, Some(v(40_000 + (ch >> 8) as u32 % 3000, true)))]));
     }
     let crafted_batch = ch % 8 == 4;
+    // an eighth of the images: one table whose single data block is far larger than 64 KiB and
+    // compresses well (a compressed block of several compression chunks)
+    let big_block = ch % 8 == 2;
+    if big_block {
+        ops.push(Op::Reopen(Cfg { memtable: 4 * 1024 * 1024, file: 1024 * 1024, block: 1 << 20, reuse: false }));
+        ops.push(Op::Fill { start: 0, n: 10, val: v(16_384, true) });
+        ops.push(Op::Flush);
+        ops.push(Op::WaitIdle);
+        ops.push(Op::Put(1000, v(22, false)));
+    }
     // another quarter: a fresh WAL under a large memtable whose first 32 KiB block ends in a 1-6 byte
     // trailer, with further records (overwrites of keys stored in tables) in the second block
     if ch % 4 == 1 {
@@ -246,7 +256,7 @@ pub fn build_image(case: &Case) -> Result<Image, String> {
             Op::Reopen(c) => {
                 db = None;
                 let mut c = *c;
-                if c.block > 256 {
+                if c.block > 256 && !(big_block && c.block == 1 << 20) {
                     c.block = 128;
                 }
                 if c.memtable < 1500 {
